@@ -341,6 +341,9 @@ let run (op : string) (a : string list) : string list =
       let msame = (cmp <> "1") || (match model_signed_bytes img blobs with Some b -> b = out | None -> false) in
       [(if code = 100 then "skip" else if code <> 0 then "violation" else if msame then "ok" else "mismatch");
        string_of_int code]
+  (* C15 *)
+  | "fault", [res_ok; after; same] ->
+      [verdict (check_fault (bool_of_string01 res_ok) (nlist_of_string after) (bool_of_string01 same))]
   | _ -> ["skip"; "unknown op " ^ op]
 
 let () =
